@@ -85,6 +85,8 @@ async def scenario(loop, sc):
     fail_at = sc.get("fail_at_ms")
     orig_get = broker.get_consumer
     ev = []
+    failed = {}          # "step": the loop step at which the consumer's consume() raised
+    SETTLE = 8           # loop steps the runner gets to notice the failure (no time passes in them)
 
     def get_consumer(queue_name, *a, **k):
         c = orig_get(queue_name, *a, **k)
@@ -93,12 +95,22 @@ async def scenario(loop, sc):
 
             async def consume():
                 if vloop.CLOCK.us >= fail_at * 1000:
+                    failed.setdefault("step", loop.steps)
                     raise ConnectionError("broker connection lost (injected)")
                 try:
                     return await asyncio.wait_for(orig_consume(), max(0.001, (fail_at * 1000 - vloop.CLOCK.us) / 1e6))
                 except asyncio.TimeoutError:
+                    failed.setdefault("step", loop.steps)
                     raise ConnectionError("broker connection lost (injected)") from None
             c.consume = consume
+            if sc.get("slow_pause_ms"):
+                # pausing a consumer is a broker round trip on some brokers: it takes time (and the status must not wait for it)
+                orig_pause = c.pause
+
+                async def pause():
+                    await asyncio.sleep(sc["slow_pause_ms"] / 1000)
+                    await orig_pause()
+                c.pause = pause
         return c
     broker.get_consumer = get_consumer
     import repid.worker, repid._runner
@@ -130,7 +142,10 @@ async def scenario(loop, sc):
         pending = []      # connections opened earlier, answered later (status must be evaluated at response time)
         for step in sc["steps"]:
             await asyncio.sleep(step.get("wait_ms", 1) / 1000)
-            if fail_at is not None and not failed_logged and w.health_check_server.health_status.value == 503:
+            if fail_at is not None and not failed_logged and "step" in failed:
+                # the failure is a fact of the run (consume() raised), not something read off the status it is supposed to set
+                for _ in range(max(0, failed["step"] + SETTLE - loop.steps)):
+                    await asyncio.sleep(0)
                 ev.append({"e": "fail"})
                 failed_logged = True
             if run_task.done():
@@ -165,7 +180,7 @@ async def scenario(loop, sc):
                         t.close()
                 code, well = parse_response(t.written)
                 ev.append({"e": "recv", "c": c, "cls": cls, "code": code, "wellformed": well, "serving": serving()})
-        if fail_at is not None and not failed_logged and w.health_check_server.health_status.value == 503:
+        if fail_at is not None and not failed_logged and "step" in failed:
             ev.append({"e": "fail"})
         await asyncio.sleep(0.3)
         ev.append({"e": "probe", "serving": serving()})
@@ -251,6 +266,11 @@ def make_scenarios(tier, rng):
                  {"do": "send", "cls": "get_ep", "chunks": [list(data)], "wait_ms": 10, "reuse": True},
                  {"do": "send", "cls": "get_ep", "chunks": [list(data)], "wait_ms": 10}]
         scs.append({"seed": 2, "endpoint": ep, "fail_at_ms": fail, "steps": steps})
+    # the failed consumer's pause() is slow (a broker round trip): probes every few milliseconds after the failure
+    for fail in (20, 45):
+        for slow in (80, 400):
+            steps = [{"do": "send", "cls": "get_ep", "chunks": [list(data)], "wait_ms": 5} for _ in range(24)]
+            scs.append({"seed": 4, "endpoint": ep, "fail_at_ms": fail, "steps": steps, "slow_pause_ms": slow})
     return scs
 
 
